@@ -31,16 +31,24 @@ fn one_run(store0: &InMemoryBackend, key: &rustic_core::repofile::MasterKey, src
     let rec = RecBackend::new(store.clone(), "s");
     // pack sizes: from one blob per pack upward
     let sizes = [1u32, 3_000, 20_000, 200_000, 4_000_000];
-    let dp = sizes[(j % 5) as usize];
-    let tp = sizes[((j / 5 + j) % 5) as usize];
+    let dp = if j >= 1000 { 1 } else { sizes[(j % 5) as usize] };
+    let tp = if j >= 1000 { 1 } else { sizes[((j / 5 + j) % 5) as usize] };
     let mut repo = open_repo(rec.clone(), None, key, &repo_opts())?;
     let _ = repo.apply_config(&small_pack_config(dp, tp))?;
     // seeded delays before every mutating backend call
     let st = Arc::new(std::sync::Mutex::new(SplitMix(seed ^ (j.wrapping_mul(0x9E37)))));
     let st2 = st.clone();
     let delay = j % 3 != 0;
+    // schedule >= 1000: one pack write (the 3rd mutating call) stalls for 12 s (a slow upload);
+    // pack size: one blob per pack, so that many packs queue up behind it
+    let stall = j >= 1000;
+    let cnt = Arc::new(std::sync::atomic::AtomicUsize::new(0));
     rec.set_before(Some(Arc::new(move |_op| {
-        if delay {
+        if stall {
+            if cnt.fetch_add(1, std::sync::atomic::Ordering::SeqCst) == 2 {
+                std::thread::sleep(Duration::from_secs(12));
+            }
+        } else if delay {
             let us = st2.lock().unwrap().below(400);
             std::thread::sleep(Duration::from_micros(us));
         }
@@ -102,6 +110,62 @@ fn one_run(store0: &InMemoryBackend, key: &rustic_core::repofile::MasterKey, src
     Ok(RunOut { tree: snap.tree.to_hex().to_string(), refs, clean, packs_unindexed, missing_refs: missing, ms, packs })
 }
 
+/// two backups (the second of a reduced source, so that packs become partly used), forget the first,
+/// then prune with repack_all; returns "<clean>:<packs unindexed>:<missing refs>"
+fn prune_run(store0: &InMemoryBackend, key: &rustic_core::repofile::MasterKey, src: &std::path::Path, fast: bool) -> anyhow::Result<String> {
+    let store = Arc::new(store0.clone());
+    let mut repo = open_repo(store.clone(), None, key, &repo_opts())?;
+    // data packs of ~6 blobs for the backup, one blob per pack for the repack target
+    let _ = repo.apply_config(&small_pack_config(60_000, 3_000))?;
+    let (repo, snap1) = backup_dir(repo, src, "src", None)?;
+    // second state: drop every second top-level entry
+    let src2 = tempfile::tempdir()?;
+    let mut k = 0;
+    for e in std::fs::read_dir(src)? {
+        let e = e?;
+        k += 1;
+        if k % 2 == 0 && e.file_type()?.is_file() {
+            let _ = std::fs::copy(e.path(), src2.path().join(e.file_name()))?;
+        }
+    }
+    let (repo, snap2) = backup_dir(repo, src2.path(), "src", None)?;
+    repo.delete_snapshots(&[snap1.id])?;
+    // (the in-memory store keeps one config file per content: the repository cannot be re-opened
+    // after a config change, so one handle is used throughout)
+    let mut repo = repo;
+    let _ = repo.apply_config(&small_pack_config(1, 1))?;
+    let mut po = rustic_core::PruneOptions::default();
+    po.repack_all = true;
+    po.fast_repack = fast;
+    po.instant_delete = true;
+    po.max_unused = rustic_core::LimitOption::Percentage(0);
+    let plan = repo.prune_plan(&po)?;
+    repo.prune(&po, plan)?;
+    let clean = check_clean(&repo)?;
+    let repo = repo.to_indexed()?;
+    let mut ipacks = BTreeSet::new();
+    for r in repo.stream_files::<IndexFile>()? {
+        let (_id, f) = r?;
+        for p in f.packs {
+            let _ = ipacks.insert(p.id.to_hex().to_string());
+        }
+    }
+    let listed: Vec<Id> = store.list(FileType::Pack)?;
+    let unidx = listed.iter().filter(|id| !ipacks.contains(id.to_hex().as_str())).count();
+    let node = repo.node_from_snapshot_path(&snap2.id.to_hex(), |_| true)?;
+    let mut missing = 0;
+    for item in repo.ls(&node, &LsOptions::default())? {
+        let (_p, n) = item?;
+        if let Some(c) = &n.content {
+            missing += c.iter().filter(|d| repo.get_index_entry::<DataId>(d).is_err()).count();
+        }
+        if let Some(t) = &n.subtree {
+            missing += usize::from(repo.get_index_entry::<TreeId>(t).is_err());
+        }
+    }
+    Ok(format!("{}:{unidx}:{missing}", u8::from(clean)))
+}
+
 fn case(line: &str) -> String {
     let mut t = Toks::new(line);
     let (seed, nsched, max_entries, max_file) = (t.u(), t.u(), t.u() as usize, t.u() as usize);
@@ -132,7 +196,12 @@ fn case(line: &str) -> String {
     };
     let mut outs = Vec::new();
     let mut dense: BTreeMap<String, usize> = BTreeMap::new();
-    for j in 0..nsched {
+    let extra = t.opt_s().map_or(0, |x| x.parse::<u64>().unwrap_or(0));
+    let mut scheds: Vec<u64> = (0..nsched).collect();
+    if extra & 1 == 1 {
+        scheds.push(1000);
+    }
+    for j in scheds {
         // watchdog: the run happens in a thread; a hang is reported instead of blocking the harness
         let (tx, rx) = std::sync::mpsc::channel();
         let (s0, k, p) = (store0.clone(), key.clone(), src.path().to_path_buf());
@@ -159,7 +228,25 @@ fn case(line: &str) -> String {
             }
         }
     }
-    let mut s = format!("ok tree={} nref={}", &outs[0].tree[..16], outs[0].refs.len());
+    // prune with repacking under the watchdog (fast and re-encoding repack, one blob per pack)
+    let mut prune_note = String::new();
+    if extra & 2 == 2 {
+        for fast in [true, false] {
+            let (tx, rx) = std::sync::mpsc::channel();
+            let (s0, k, p) = (store0.clone(), key.clone(), src.path().to_path_buf());
+            let _h = std::thread::spawn(move || {
+                let r = std::panic::catch_unwind(std::panic::AssertUnwindSafe(|| prune_run(&s0, &k, &p, fast)));
+                let _ = tx.send(r);
+            });
+            match rx.recv_timeout(Duration::from_secs(120)) {
+                Err(_) => return format!("hang prune fast_repack={fast}"),
+                Ok(Err(_)) => return format!("panic prune fast_repack={fast}"),
+                Ok(Ok(Err(e))) => return format!("err prune fast_repack={fast} {}", e.to_string().replace('\n', " ")),
+                Ok(Ok(Ok(note))) => prune_note.push_str(&format!(" prune{}={note}", u8::from(fast))),
+            }
+        }
+    }
+    let mut s = format!("ok tree={} nref={}{prune_note}", &outs[0].tree[..16], outs[0].refs.len());
     for (j, o) in outs.iter().enumerate() {
         let mut h = Sha256::new();
         for (t, id) in &o.refs {
